@@ -619,6 +619,14 @@ func execC38(boot *pgsim.DB, c *mcase) caseResult {
 		return fmt.Sprintf("%s — seed %s, mutation %s=%s; request: %s; response: %s", msg, c.Seed.id(), c.Loc, c.Repl, c.Req, resp.short())
 	}
 	if isEngine(resp) {
+		if strings.Contains(resp.Log+resp.Body, "pgsim: parse:") {
+			// the mutation made the ledger emit SQL text that pgsim's parser rejects. pgsim
+			// cannot tell invalid SQL (a genuine 5xx on Postgres) from valid SQL it does not
+			// support, so the case is neither a violation nor evidence: inconclusive.
+			res.Counts["inconclusive"]++
+			res.Extra = map[string]string{"inconclusive": desc("SQL text rejected by pgsim's parser")}
+			return res
+		}
 		res.Engine = desc("pgsim engine error surfaced")
 		return res
 	}
@@ -704,6 +712,7 @@ func runC38(r *ev.Run) (ev.Coverage, []string) {
 	}
 	counts := map[string]int64{}
 	distinct := map[string]bool{}
+	inconclusiveSeen := map[string]bool{}
 	samples := ev.NewSamples(6)
 	var evals int64
 	deadline := time.Now().Add(budgetOf(r, c38Quick, c38Thorough) - r.Elapsed())
@@ -731,6 +740,13 @@ func runC38(r *ev.Run) (ev.Coverage, []string) {
 		if res.Engine != "" {
 			r.EngineError(res.Engine)
 			return
+		}
+		if m := res.Extra["inconclusive"]; m != "" {
+			key := c.Seed.API + ":" + c.Seed.Route + ":" + locKind(c.Loc)
+			if !inconclusiveSeen[key] {
+				inconclusiveSeen[key] = true
+				r.Note("inconclusive (" + key + "): " + m)
+			}
 		}
 		for k, v := range res.Counts {
 			counts[k] += v
@@ -766,20 +782,21 @@ func runC38(r *ev.Run) (ev.Coverage, []string) {
 		}
 	}
 	cov := ev.Coverage{
-		"evaluations":                     evals,
-		"distinct_nontrivial":             len(distinct),
-		"cases_generated":                 len(p.cases),
-		"seeds":                           len(p.ctx.seeds),
-		"routes":                          routeCount(p.ctx.seeds),
-		"not_constructible":               counts["not_constructible"],
-		"definitely_invalid":              counts["must"],
-		"definitely_invalid_rejected_4xx": counts["must_rejected"],
-		"outcomes":                        outcomes,
-		"cases_per_mutation_kind":         kinds,
-		"exhaustive":                      exhaustive,
-		"samples":                         samples.List(),
-		"stream_documents_mutated":        map[bool]string{true: "all", false: "first of each log type"}[r.Thorough()],
-		"rule":                            "one valid seed request per v1/v2 route (exporters/pipelines and bucket deletion excluded) on a clone of a booted+seeded pgsim database; mutations one at a time: every JSON pointer of the body (and of the query-string filter, and of the decoded cursor) x {null,true,0,-1,1.5,1e400,\"\",\"x\",[],{},2^70,300-char string} + delete; bad dates on date-valued fields/params; every query parameter x {-1,0,abc,1e9,empty,300 chars}; cursors x {garbage, base64 of invalid JSON/non-object/text, truncated}; malformed filters; named invalid addresses/assets/variable values; empty/truncated/non-JSON body; Content-Type; Idempotency-Key reused with a different input; path id/address. Oracle: no 5xx/panic/process crash, well-formed body for the status, 4xx leaves the dump unchanged (except non-atomic bulk, whose elements are independent by contract), definitely-invalid input (explicit table) is 4xx; in-doubt mutations may be 2xx or 4xx",
+		"evaluations":         evals,
+		"distinct_nontrivial": len(distinct),
+		"cases_generated":     len(p.cases),
+		"seeds":               len(p.ctx.seeds),
+		"routes":              routeCount(p.ctx.seeds),
+		"not_constructible":   counts["not_constructible"],
+		"inconclusive_sql_rejected_by_pgsim_parser": counts["inconclusive"],
+		"definitely_invalid":                        counts["must"],
+		"definitely_invalid_rejected_4xx":           counts["must_rejected"],
+		"outcomes":                                  outcomes,
+		"cases_per_mutation_kind":                   kinds,
+		"exhaustive":                                exhaustive,
+		"samples":                                   samples.List(),
+		"stream_documents_mutated":                  map[bool]string{true: "all", false: "first of each log type"}[r.Thorough()],
+		"rule":                                      "one valid seed request per v1/v2 route (exporters/pipelines and bucket deletion excluded) on a clone of a booted+seeded pgsim database; mutations one at a time: every JSON pointer of the body (and of the query-string filter, and of the decoded cursor) x {null,true,0,-1,1.5,1e400,\"\",\"x\",[],{},2^70,300-char string} + delete; bad dates on date-valued fields/params; every query parameter x {-1,0,abc,1e9,empty,300 chars}; cursors x {garbage, base64 of invalid JSON/non-object/text, truncated}; malformed filters; named invalid addresses/assets/variable values; empty/truncated/non-JSON body; Content-Type; Idempotency-Key reused with a different input; path id/address. Oracle: no 5xx/panic/process crash, well-formed body for the status, 4xx leaves the dump unchanged (except non-atomic bulk, whose elements are independent by contract), definitely-invalid input (explicit table) is 4xx; in-doubt mutations may be 2xx or 4xx",
 	}
 	return cov, assumptions
 }
